@@ -89,25 +89,37 @@ def snapshot(obj, _depth=0):
     return obj
 
 
+_old_counter = [0]
+
+
 class _OldCollector(ast.NodeTransformer):
     def __init__(self):
         self.olds = []
 
     def visit_Call(self, node):
         if isinstance(node.func, ast.Name) and node.func.id == "old" and len(node.args) == 1:
-            name = f"__old_{len(self.olds)}"
+            _old_counter[0] += 1
+            name = f"__old_{_old_counter[0]}"
             self.olds.append((name, node.args[0]))
             return ast.copy_location(ast.Name(id=name, ctx=ast.Load()), node)
         self.generic_visit(node)
         return node
 
 
+_code_cache = {}
+
+
 def _ev(node, env):
-    expr = ast.Expression(body=node)
-    ast.fix_missing_locations(expr)
-    g = dict(loader.HELPER_GLOBALS)
-    g.update(env)
-    return eval(compile(expr, "<contract>", "eval"), g)
+    """env is a full globals dict (helper namespace + bindings)."""
+    code = _code_cache.get(id(node))
+    if code is None:
+        expr = ast.Expression(body=node)
+        ast.fix_missing_locations(expr)
+        code = compile(expr, "<contract>", "eval")
+        _code_cache[id(node)] = (code, node)
+    else:
+        code = code[0]
+    return eval(code, env)
 
 
 def _src(node):
@@ -127,11 +139,13 @@ def check_call(qualname, args, fn_override=None):
     fn, kind, owner = resolve(qualname)
     if fn_override is not None:
         fn = fn_override
-    env = dict(args)
+    env = dict(loader.HELPER_GLOBALS)
+    env.update(args)
     requires_ok = True
     raises_clauses = []   # (exc classes, when_value, src)
     ensures_clauses = []  # (ast, src)
     is_pure = False
+    may_raise = []
     try:
         for st in node.body:
             if isinstance(st, ast.Expr) and isinstance(st.value, ast.Constant):
@@ -154,16 +168,27 @@ def check_call(qualname, args, fn_override=None):
                     is_pure = True
                 elif f == "modifies" or f == "hint":
                     pass
+                elif f == "may_raise":
+                    exc = _ev(c.args[0], env)
+                    may_raise.append(exc)
                 elif f == "raises":
                     exc = _ev(c.args[0], env)
                     when = True
                     for kw in c.keywords:
                         if kw.arg == "when":
                             when = _ev(kw.value, env)
-                    raises_clauses.append((exc, bool(when), _src(c)))
+                    unchanged = any(kw.arg == "unchanged" and _ev(kw.value, env) for kw in c.keywords)
+                    raises_clauses.append((exc, bool(when), _src(c), unchanged))
                 elif f == "ensures":
                     col = _OldCollector()
-                    e = col.visit(copy.deepcopy(c.args[0]))
+                    ck = ("ens", id(c))
+                    if ck in _code_cache:
+                        e, olds = _code_cache[ck]
+                    else:
+                        e = col.visit(copy.deepcopy(c.args[0]))
+                        olds = col.olds
+                        _code_cache[ck] = (e, olds)
+                    col.olds = olds
                     for name, oexpr in col.olds:
                         env[name] = copy.deepcopy(_ev(oexpr, env))
                     ensures_clauses.append((e, _src(c.args[0])))
@@ -176,7 +201,8 @@ def check_call(qualname, args, fn_override=None):
     except Exception as e:  # contract could not be evaluated in the pre-state
         return Outcome("error", "pre-state evaluation failed: " + "".join(traceback.format_exception_only(type(e), e)).strip())
 
-    pre_snap = snapshot([v for v in args.values()]) if is_pure else None
+    need_snap = is_pure or any(rc[3] for rc in raises_clauses)
+    pre_snap = snapshot([v for v in args.values()]) if need_snap else None
     # --- call the real function
     sig = inspect.signature(fn)
     params = list(sig.parameters.values())
@@ -204,16 +230,21 @@ def check_call(qualname, args, fn_override=None):
         result = fn(*pos, **kw)
     except Exception as e:  # noqa
         raised = e
-    expected = [(exc, src) for exc, when, src in raises_clauses if when]
+    expected = [(exc, src) for exc, when, src, _u in raises_clauses if when]
+    must_be_unchanged = any(u for exc, when, src, u in raises_clauses if when)
     if raised is not None:
+        if any(isinstance(raised, exc) for exc in may_raise):
+            if is_pure and snapshot([v for v in args.values()]) != pre_snap:
+                return Outcome("violation", "arguments modified by a function declared pure()", "pure")
+            return Outcome("ok")
         if not any(isinstance(raised, exc) for exc, _ in expected):
             return Outcome(
                 "violation",
                 f"raised {type(raised).__name__}: {raised!s:.200} but no raises-clause admits it here",
                 "exceptional-exit",
             )
-        if is_pure and snapshot([v for v in args.values()]) != pre_snap:
-            return Outcome("violation", "arguments modified by a function declared pure()", "pure")
+        if (is_pure or must_be_unchanged) and snapshot([v for v in args.values()]) != pre_snap:
+            return Outcome("violation", "rejected call changed its arguments (raises(..., unchanged=True) / pure())", "unchanged-on-raise")
         return Outcome("ok")
     if expected:
         return Outcome("violation", f"returned {result!r:.200} but contract requires {expected[0][1]}", expected[0][1])
